@@ -754,7 +754,7 @@ class TreeSim(WorldBase):
             return self.unexpected("C03", "r0", e, s)
         targets.add(s)
         if self.prop == "C03":
-            if box is not t._root or not isinstance(box, Payload):
+            if box is not ob.root_of(t) or not isinstance(box, Payload):
                 self.V("C03", "C03.ref-aliases", "r0", "rank-0 getPayloadRef() did not return the stored payload")
             elif box.value != cur:
                 self.V("C03", "C03.ref-value", "r0", f"rank-0 handle shows {box.value!r}, model says {cur!r}")
